@@ -35,6 +35,17 @@ def seeded_table():
     for r in rows:
         if r[2] == "benign":
             out.append("| `%s` | %s | %s |" % (r[0], r[3], r[6] or "silent"))
+    out.append("")
+    out.append("Behaviour-preserving changes that are reported by design (kind `review`, §8 item 17):")
+    out.append("")
+    out.append("| id | change | why it is reported |")
+    out.append("|---|---|---|")
+    for d in sorted(glob.glob(os.path.join(VERIF, "seeded", "*"))):
+        mp = os.path.join(d, "meta.json")
+        if os.path.exists(mp):
+            m = json.load(open(mp))
+            if m.get("kind") == "review":
+                out.append("| `%s` | %s | %s |" % (os.path.basename(d), (m.get("summary") or "")[:230].replace("\n", " ").replace("|", "/"), (m.get("why_reported") or "").replace("|", "/")))
     return "\n".join(out)
 
 def rules_table():
